@@ -1,1 +1,4 @@
-//! mon
+//! Monitors.
+pub mod dump;
+pub mod fault;
+pub mod step;
